@@ -139,6 +139,11 @@ def _install_probe() -> None:
     async def _process_tick(self, tick):
         rec = CUR
         ok = False
+        if rec is not None:
+            rec.cur_pubs = []
+            rec.pre_tick = {
+                "buffer": [type(t).__name__ for t in self.tick_buffer],
+            }
         try:
             res = await orig_pt(self, tick)
             ok = True
@@ -193,6 +198,7 @@ def _snapshot(runner, tick, ok: bool, rec: Rec) -> dict:
         "buffer": [type(t).__name__ for t in runner.tick_buffer],
         "mailbox": mailbox,
         "run_id": runner.adapter.run_id,
+        "published": list(getattr(rec, "cur_pubs", [])),
         "state_obj": st,
         "runner": runner,
     }
@@ -216,6 +222,16 @@ def make_runtime(get_now: str = "mono"):
 
     class SimAdapter(basic.InternalAsyncioAdapter):
         """Inherited real adapter; only the choice among simultaneously-done workers is generated."""
+
+        async def write_to_event_stream(self, event):
+            rec = CUR
+            if rec is not None and hasattr(rec, "cur_pubs"):
+                try:
+                    mb = self._queues.receive_queue.qsize()
+                except Exception:  # noqa: BLE001
+                    mb = None
+                rec.cur_pubs.append({"type": type(event).__name__, "idle": getattr(event, "idle", None), "mailbox": mb, "t": VClock.t})
+            return await super().write_to_event_stream(event)
 
         async def wait_for_next_task(self, running, pending, timeout=None):
             started = [p.start(asyncio.create_task(p.coro)) for p in pending]
@@ -281,8 +297,7 @@ async def _interp(ctx, ev, acts, inv, rec: Rec, step_name: str):
     for act in acts:
         k = act[0]
         if k == "sleep":
-            if act[1] > 0:
-                await asyncio.sleep(act[1])
+            await asyncio.sleep(act[1])
         elif k == "send":
             _, tname, n, target = act
             for _i in range(n):
@@ -696,7 +711,9 @@ def program_strategy(
                         tgt = draw(st.sampled_from(consumers[t]))
                     acts.append(["send", t, n, tgt])
                     need.discard(t)
-                if draw(st.integers(0, 4)) == 0:
+                if draw(st.integers(0, 3)) == 0:
+                    for _ in range(draw(st.sampled_from([0, 0, 1, 2]))):
+                        acts.append(["sleep", 0])  # bare yields: move the publication to a later loop iteration
                     acts.append(["stream", "Note"])
                 if draw(st.integers(0, 3)) == 0:
                     acts.append(["sleep", draw(durations)])
